@@ -28,6 +28,13 @@ package main
 //@   ensures v1 != "" && v2 != "" && semver.IsValid(v1) && semver.IsValid(v2) ==> semver.Compare(result, v1) <= 0 && semver.Compare(result, v2) <= 0
 //@   modifies nothing
 
+// listProxyVersions: generate filters the returned list in place, so outside the
+// test hook (versionsForTesting, set only by tests) every call must return a list
+// of its own: one that did not exist before the call and that nothing else holds.
+//@ contract listProxyVersions
+//@   ensures result1 == nil && !in(modulePath, versionsForTesting) ==> fresh(result0)
+//@   modifies heap
+
 // generate: each record's counter expression goes under its own program, as a
 // stack exactly when it has a positive depth and as a counter otherwise, with
 // the record's depth; a known version is listed only if it is not older than
